@@ -31,6 +31,10 @@ type St struct {
 	// already resolved and the second use resolves at once with the same verdict; when both uses are in
 	// flight together, both end when the one pipeline is resolved.
 	ReuseOf string `json:"reuse_of,omitempty"`
+	// Attr: settings of the stage's task that have nothing to do with scheduling (bit 0 interactive, 1 a timeout of an
+	// hour, 2 exportAs, 3 a dir): the order and the concurrency of stages do not depend on them.
+	Attr int `json:"attr,omitempty"`
+	// Deps may list a stage more than once (depends_on: [a, a, b]): that is the same as listing it once.
 }
 
 // Gr is a pipeline; Stages is the declaration order.
